@@ -114,6 +114,33 @@ fn check_all(ctx: &mut Ctx, m: &SetModel, rng: &mut Rng, all_chains: &[Vec<usize
         check_chain(ctx, m, chain, false, &directs, max_pos);
         if chain.len() <= 3 { check_chain(ctx, m, chain, true, &directs, max_pos); }
     }
+    // A sparse vector that holds the same positions with duplicates (a multiset) converts to the same plain / run-length
+    // vectors: the bits are what is preserved, not the multiplicities.
+    if !m.ones.is_empty() && m.ones.len() <= 20_000 {
+        let mut dup: Vec<usize> = Vec::with_capacity(m.ones.len() * 2);
+        for (k, &p) in m.ones.iter().enumerate() { dup.push(p); if k % 3 != 1 { dup.push(p); } }
+        if let Ok(ms) = mk::multiset_set(m.n, &dup) {
+            // Only the plain bitvector is a target here: converting a MULTISET into a run-length vector is outside the
+            // statement (it quantifies over bit sequences) and the library does not support it (copy_bit_vec replays
+            // one_iter(), which repeats positions); that outcome is recorded as information only.
+            if m.ones.len() <= 64 {
+                let info = guard(|| RLVector::copy_bit_vec(&ms).len());
+                ctx.count(if info.is_ok() { "info.multiset_to_rl_ok" } else { "info.multiset_to_rl_panics" }, 1);
+            }
+            for target in [0usize] {
+                ctx.checks += 1;
+                let r = guard(|| Any::S(ms.clone()).convert(target, m.n % 2 == 0));
+                match (r, &directs[target]) {
+                    (Ok(x), Ok(d)) => {
+                        if x != *d { ctx.violation("convert.multiset.eq", format!("{} converted from a multiset sparse vector is not == to the directly built one on {}", NAMES[target], m.describe())); }
+                        else if x.bytes() != d.bytes() { ctx.violation("convert.multiset.bytes", format!("{} converted from a multiset sparse vector serializes differently on {}", NAMES[target], m.describe())); }
+                    },
+                    (Err(p), _) => ctx.violation("convert.multiset!panic", format!("conversion of a multiset sparse vector to {} panicked ({}) on {}", NAMES[target], p, m.describe())),
+                    _ => {},
+                }
+            }
+        }
+    }
     // Construction-route independence: every decomposition of the same run list gives the same RLVector ...
     if let Ok(Any::R(d)) = &directs[2] {
         let runs = m.runs();
